@@ -918,6 +918,65 @@ fn nest_source(kind: &str, n: usize) -> String {
 	}
 }
 
+/// complete format codes whose every prefix is a format string of the `format-prefix` family
+const FORMAT_CODES: &[&str] = &[
+	"%(key)-+ #05.3hlLd", "%*.*f", "%%", "%c", "%5s", "%(a)s", "%(é)s", "%()s", "%(a b)08.3lle", "%.3e", "%#x", "%-08.2g", "%ld", "%hhd", "%Lf", "%lld", "%hlLhlLi",
+	"%*d", "%.*s", "%(key)*d", "%(key).*f", "% d", "%+.0f", "%0#12.5LX", "%65535d", "%.65535hf", "%65536ld", "%-*.*lu", "%#o", "%5.G", "%(a)(b)s", "%(a%s",
+];
+
+/// (number of distinct format strings, calls): every prefix of every code of FORMAT_CODES in the
+/// contexts bare / behind text / behind a complete code / in front of further text, called through
+/// std.format, std.mod and `%` with the value shapes below.  `quick` keeps every prefix and every
+/// entry point, and a seeded third of the (context, value) combinations beyond the bare ones.
+fn format_prefix_codes(rng: &mut Rng, thorough: bool, lit: &dyn Fn(&str) -> String) -> (usize, Vec<String>) {
+	let mut prefixes: Vec<String> = Vec::new();
+	for c in FORMAT_CODES {
+		let idx: Vec<usize> = c.char_indices().map(|(i, _)| i).skip(1).chain(std::iter::once(c.len())).collect();
+		for i in idx {
+			let p = c[..i].to_owned();
+			if !prefixes.contains(&p) {
+				prefixes.push(p);
+			}
+		}
+	}
+	let types = ["1", "-1.5", "\"ab\"", "\"é\"", "null", "true", "[1]", "{a: 1}", "function(x) x", "65", "1114112"];
+	let mut vals: Vec<String> = vec!["[]".into(), "{}".into()];
+	for v in types {
+		vals.push(v.to_owned());
+		vals.push(format!("[{v}]"));
+		vals.push(format!("[{v}, {v}]"));
+		vals.push(format!("[5, 2, {v}]"));
+		vals.push(format!("[{v}, 2, 1]"));
+		vals.push(format!("{{key: {v}}}"));
+		vals.push(format!("{{key: {v}, a: {v}, 'é': {v}, '': {v}, 'a b': {v}}}"));
+	}
+	// quick tier: the bare prefix with every shape of these five types; the rest is a seeded sample
+	let mut dense: Vec<String> = vec!["[]".into(), "{}".into()];
+	for v in ["1", "\"ab\"", "null", "[1]", "{a: 1}"] {
+		dense.extend([v.to_owned(), format!("[{v}]"), format!("[{v}, {v}]"), format!("[5, 2, {v}]"), format!("{{key: {v}}}")]);
+	}
+	let mut strings = 0usize;
+	let mut codes = Vec::new();
+	for p in &prefixes {
+		// contexts: bare | behind non-ASCII text | behind a complete `%%` | behind a complete `%s` (consumes a value) | in front of text
+		let ctx = [p.clone(), format!("é{p}"), format!("%%{p}"), format!("%s{p}"), format!("{p} x")];
+		for (ci, f) in ctx.iter().enumerate() {
+			strings += 1;
+			let fl = lit(f);
+			for v in &vals {
+				let all = thorough || (ci == 0 && dense.iter().any(|d| v == d));
+				if !all && !rng.chance(1, 16) {
+					continue;
+				}
+				codes.push(format!("std.format({fl}, {v})"));
+				codes.push(format!("std.mod({fl}, {v})"));
+				codes.push(format!("({fl} % {v})"));
+			}
+		}
+	}
+	(strings, codes)
+}
+
 struct Cx {
 	hist: HashMap<String, usize>,
 	fam: HashMap<String, usize>,
@@ -1188,6 +1247,54 @@ fn run_workers(opts: &Opts) {
 		}
 	}
 
+	// D3. format strings cut off inside a conversion: every PREFIX (at every character boundary) of a
+	// set of complete format codes — after `%`, after `(`, inside and after the key, after each flag,
+	// after the width, after `.`, after the precision, after each length modifier — bare, behind text
+	// and behind a complete code, through std.format, std.mod and the `%` operator, with 0..2 values
+	// of each type (bare, in an array, behind two `*` operands, as the mapping's field).  Batched like
+	// D2: only calls that end in neither a value nor an error become individual cases.
+	let fmt_t0 = std::time::Instant::now();
+	let (fmt_strings, fmt_calls, fmt_errs, fmt_bad) = {
+		let codes = format_prefix_codes(&mut rng, thorough, &lit);
+		let strings = codes.0;
+		let codes = codes.1;
+		let mut calls = 0usize;
+		let mut errs = 0usize;
+		let mut nbad = 0usize;
+		for chunk in codes.chunks(4000) {
+			let case = json!({"k":"batch","codes":chunk,"timeout_ms":180000});
+			let imp = pool.ask(&case);
+			*cx.fam.entry("format-prefix".to_owned()).or_default() += 1;
+			calls += chunk.len();
+			if imp["outcome"].as_str().unwrap_or("?") == "ok" {
+				errs += imp["errs"].as_u64().unwrap_or(0) as usize;
+				let bad: Vec<Value> = imp["bad"].as_array().cloned().unwrap_or_default();
+				nbad += bad.len();
+				for b in &bad {
+					let i = b["i"].as_u64().unwrap_or(0) as usize;
+					let mut one = b.clone();
+					one["depth"] = b["depth_after"].clone();
+					one["canary"] = imp["canary"].clone();
+					let code = chunk[i].clone();
+					let size = code.len();
+					let tag = one["outcome"].as_str().unwrap_or("?").to_owned();
+					*cx.hist.entry(format!("format-prefix:{tag}")).or_default() += 1;
+					w.case(json!({"op":"total.observe","family":"format-prefix","case":{"k":"src","code":code},"impl":one,"size":size}), one);
+				}
+				let mut summary = imp.clone();
+				summary["bad"] = json!(bad.len());
+				w.case(json!({"op":"total.observe","family":"format-prefix","batch":chunk.len(),"_first":chunk[0],"impl":summary,"size":chunk.len(),"trivial":false}), summary);
+			} else {
+				for code in chunk {
+					let size = code.len();
+					cx.emit(&mut w, &mut pool, "format-prefix", json!({"k":"src","code":code,"timeout_ms":10000}), json!({}), None, size);
+				}
+			}
+		}
+		(strings, calls, errs, nbad)
+	};
+	let fmt_secs = fmt_t0.elapsed().as_secs();
+
 	// E. recursion depth swept across the frame limit
 	let limits: &[usize] = if thorough { &[1, 2, 5, 20, 100, 200, 512, 2000] } else { &[2, 5, 20, 200, 512] };
 	for &limit in limits {
@@ -1378,9 +1485,10 @@ fn run_workers(opts: &Opts) {
 	let spawned = pool.spawned;
 	w.finish(
 		json!({"engine":"c04w","cases":n,
-			"rule":"worker subprocesses (8 MiB evaluation thread, overflow-checked build): outcome must be a value or a Jsonnet error (never panic/abort/signal), frame counter back at 0 and a canary program evaluates correctly on the same thread after every case; recursion sweeps: ok* then stack-overflow errors with the first failure in [limit/8, limit]; std-pairs: every std function of >= 2 parameters x all ordered pairs of a 13-string dense pool (empty, ASCII, 2/3/4-byte, combining, NUL, long) in every pair of positions, and every string x the integers around its length in chars and in bytes, batched per function",
+			"rule":"worker subprocesses (8 MiB evaluation thread, overflow-checked build): outcome must be a value or a Jsonnet error (never panic/abort/signal), frame counter back at 0 and a canary program evaluates correctly on the same thread after every case; recursion sweeps: ok* then stack-overflow errors with the first failure in [limit/8, limit]; std-pairs: every std function of >= 2 parameters x all ordered pairs of a 13-string dense pool (empty, ASCII, 2/3/4-byte, combining, NUL, long) in every pair of positions, and every string x the integers around its length in chars and in bytes, batched per function; format-prefix: every prefix of 32 complete format codes (mapping key, every flag, width, `.`, precision, `*`, length modifiers h/l/L, every conversion, `%%`), bare / behind text / behind a complete code, through std.format, std.mod and `%`, with 0..2 values of each type bare, in arrays, behind two `*` operands and as the mapping's fields",
 			"families": cx.fam, "outcomes": cx.hist, "workers_spawned": spawned, "std_functions": fnames.len(), "arg_pool": argpool.len(),
-			"pair_pool": 13, "pair_calls": pair_calls, "pair_calls_err": pair_errs, "pair_calls_failed": pair_bad}),
+			"pair_pool": 13, "pair_calls": pair_calls, "pair_calls_err": pair_errs, "pair_calls_failed": pair_bad,
+			"format_prefix_strings": fmt_strings, "format_prefix_calls": fmt_calls, "format_prefix_calls_err": fmt_errs, "format_prefix_calls_failed": fmt_bad, "_format_prefix_seconds": fmt_secs}),
 		&opts.out,
 	);
 }
